@@ -207,7 +207,7 @@ def execute(case, ctx):
         ctx.fail("succeeds", sig, {"exc": exc_brief(e), "inter": case["inter"], "intra": case["intra"], "no_intra_edge": no_intra})
         return
     try:
-        ctx.sig_order("layout", sorted(sorted(repr(x) for x in c) for c in eng.one_and_half_junction_tree.nodes()))
+        ctx.sig_order("layout", sorted(sorted(repr((lab2idx.get(x[0], x[0]), x[1])) for x in c) for c in eng.one_and_half_junction_tree.nodes()))
     except Exception:
         pass
     for i, op in enumerate(case["ops"]):
